@@ -35,7 +35,7 @@ func verifCanonPad(n int) int {
 
 //verif:harness prop=C07 name=roundtrip
 //verif:cases quick n=0..10 pad=0,1,2 wsl=0,1 wsr=0,2
-//verif:cases thorough n=0..20,25,32,33,64 pad=0,1,2 wsl=0,1,3 wsr=0,2
+//verif:cases thorough n=0..16,20,32 pad=0,1,2 wsl=0,1 wsr=0,2
 //verif:opt unwind=2000 maxpaths=400
 func verifH_C07_roundtrip() {
 	n := verifCase("n")
